@@ -249,14 +249,23 @@ def check_bdd(prop, tier, replay, selftest):
     tr = tlc_trace("Trace_Bdd", out, boundary=is_reset)
     res.add_trace(tr)
     _bdd_collect(prop, res, tr)
+    # the same predicates on a build with every optional feature off: the fallback code paths (restrict without the dependency
+    # shortcut, recursive dependency sets, counting without the ad-hoc cache) exist only there and are as much the store as the default ones
+    nb = build_harness(features=combo_features("none", False, False), target_dir=os.path.join(HARNESS, "target-none"))
+    out2 = os.path.join(WORK, "bdd_%s_none.ndjson" % prop)
+    run_harness(nb, ["bdd", "--tier", "quick", "--nseq", "60" if tier == "quick" else "300", "--out", out2])
+    tr2 = tlc_trace("Trace_Bdd", out2, boundary=is_reset, cfg=trace_bdd_cfg("none", False))
+    res.add_trace(tr2)
+    _bdd_collect(prop, res, tr2, build="none")
+    res.extra["builds"] = ["default", "no optional feature"]
     return res.finish()
 
 
-def _bdd_collect(prop, res, tr, props=None):
+def _bdd_collect(prop, res, tr, props=None, build=None):
     props = props or {prop}
     prevlen = 0
-    seen = set()
-    nops = 0
+    seen = set(res.distinct) if build else set()
+    nops = res.evaluations if build else 0
     for line in tr["lines"]:
         r = json.loads(line)
         k = r.get("kind")
@@ -282,13 +291,16 @@ def _bdd_collect(prop, res, tr, props=None):
                 j -= 1
             seq = [json.loads(x) for x in tr["lines"][j:gl]]
             slim = [{k: v for k, v in s.items() if k not in ("dump",)} for s in seq[:-1]] + [seq[-1]]
-            res.violation("%s_%s" % (rec["id"], t[4]), {"property": prop, "component": "bdd", "sequence": slim, "mismatch": t},
-                          "%s: predicate %s false on record %s" % (t[3], t[4], rec["id"]))
+            res.violation("%s%s_%s" % (build + "_" if build else "", rec["id"], t[4]),
+                          {"property": prop, "component": "bdd", "build": build or "default", "sequence": slim, "mismatch": t},
+                          "%s: predicate %s false on record %s%s" % (t[3], t[4], rec["id"], " (build without optional features)" if build else ""))
         elif t[0] == "DRIFT":
             res.drift.append({"record": t[2], "op": t[3]})
     res.evaluations = nops
     res.distinct = seen
     res.rule = BDD_RULE
+    if build:
+        return
     res.extra["drift_count"] = len(res.drift)
     res.extra["model_level_conformance"] = "model stepped from the real pre-state predicts the real post-state (handles, node order, all memo entries) on every op record without drift" if not res.drift else "drift observed: step-level conformance lost, verdicts are I/O level only"
     ops = [json.loads(l) for l in tr["lines"][:400] if '"kind":"op"' in l]
@@ -522,7 +534,8 @@ def check_c20(prop, tier, replay, selftest):
     res.exhaustive = False
     res.extra["exhaustive_subspace"] = "all 364 vectors of length <= 5 over {T,F,U} on both the model and the real iterators"
     res.rule = ("records = interpretation vectors (all 364 of length <= 5, seeded ones of length 6-10 with <= 8 undecided positions, arbitrary "
-                "non-constant handles); both real iterators are run to exhaustion and three more calls; evaluations = emitted items; "
+                "non-constant handles); both real iterators are run to exhaustion and three more calls; plus vectors with 12-130 undecided positions "
+                "(every machine-word boundary of 2^k and 3^k) whose first 40 items are drawn and followed by the model; evaluations = emitted items; "
                 "distinct = distinct T/F/U pattern; non-trivial = at least one undecided position")
     res.samples = [json.loads(l) for l in tr["lines"][30:32]]
     res.extra["drift_count"] = len(res.drift)
